@@ -125,7 +125,7 @@ def _top_level_self_stores(f: Func) -> List[Tuple[str, ast.stmt]]:
 
 
 def check_params(prog: Program, rep, eng: Effects, rule: str, thorough: bool) -> None:
-    entries = [prog.func(m, q) for m, q in ENTRY]
+    entries = [prog.func(m, q) for m, q in ENTRY if q != 'Calculator.__post_init__' or prog.has_func(m, q)]
     if thorough:
         # every public callable of the package, not only the named entry points
         names = set(prog.module(C.M_ROOT).all_ or [])
@@ -288,7 +288,9 @@ def check_solver_state(prog: Program, rep, rule: str) -> None:
 
 
 def check_shared_state(prog: Program, rep, eng: Effects, rule: str) -> None:
-    roots = [prog.func(m, q) for m, q in ENTRY]
+    roots = [prog.func(m, q) for m, q in ENTRY if q != 'Calculator.__post_init__' or prog.has_func(m, q)]
+    calc_c = prog.cls(C.M_IF, 'Calculator')
+    roots += [m for m in list(calc_c.methods.values()) + list(calc_c.setters.values()) if m not in roots]
     reach = reachable(eng, roots)
     funcs = [eng.funcs[fq] for fq in sorted(reach)]
     rep.extra['functions_reachable_from_entry_points'] = len(funcs)
@@ -359,7 +361,7 @@ def check_shared_state(prog: Program, rep, eng: Effects, rule: str) -> None:
 
 
 def run(prog: Program, rep, thorough: bool) -> None:
-    rep.rule('C10.R1', 'no argument is mutated beyond the allow-list', len(ENTRY))
+    rep.rule('C10.R1', 'no argument is mutated beyond the allow-list', len(ENTRY) - 1)
     rep.rule('C10.R2', 'per-shot solver state re-derived on every entry', 18 + 6)
     rep.rule('C10.R3', 'no shared mutable state or nondeterminism on the compute path', 1)
     eng = Effects(prog)
